@@ -7,6 +7,7 @@ import (
 
 	"verif/harness/internal/drv"
 	"verif/harness/internal/dvc"
+	"verif/harness/internal/lmwire"
 )
 
 // Scenario probes: short sequences of WELL-FORMED requests, each of which was issued by the model-based workload of
@@ -78,6 +79,76 @@ var scenarios = []scenario{
 		r, err := w.Post("/api/repo/"+root+"/resolve", jbody(map[string]interface{}{"data": []string{"kv"}, "parents": []string{x, b2}, "note": "scenario"}))
 		return last, &r, err
 	}},
+}
+
+func init() {
+	scenarios = append(scenarios, scenario{"split-supervoxel-after-an-index-that-names-a-block-without-voxels", func(w *drv.Worker, cl *dvc.Client) (string, *drv.Resp, error) {
+		// the payload family "index fields pointing outside their tables": POST index stores what it is given; a label index
+		// with one extra block entry (no voxel data there) followed by well-formed mutations of that body
+		root, err := cl.NewRepo("scn-index")
+		if err != nil {
+			return "", nil, err
+		}
+		if err := cl.NewInstance(root, "labelmap", "lm", map[string]string{"BlockSize": "32,32,32"}); err != nil {
+			return "", nil, err
+		}
+		vox := make([]uint64, 64*64*64)
+		for i := range vox {
+			if i%64 < 40 {
+				vox[i] = 1000
+			} else {
+				vox[i] = 2000
+			}
+		}
+		base := "/api/node/" + root + "/lm/"
+		if r, err := w.Post(base+"raw/0_1_2/64_64_64/0_0_0", lmwire.EncodeVolume(vox)); err != nil || !r.OK() {
+			return "POST raw", &r, fmt.Errorf("POST raw: %v %v", r, err)
+		}
+		if err := w.Settle(); err != nil {
+			return "", nil, err
+		}
+		g, err := w.Get(base + "index/1000")
+		if err != nil || g.Status != 200 {
+			return "GET index", &g, fmt.Errorf("GET index: %v %v", g, err)
+		}
+		li, err := lmwire.DecodeLabelIndex(g.Body)
+		if err != nil {
+			return "", nil, fmt.Errorf("decode index: %v", err)
+		}
+		li.Label = 1000
+		li.Blocks[[3]int32{5, 5, 5}] = map[uint64]uint32{1000: 10}
+		if r, err := w.Post(base+"index/1000", lmwire.EncodeLabelIndex(li)); err != nil || !r.OK() {
+			return "POST index", &r, fmt.Errorf("POST index: %v %v", r, err)
+		}
+		last := "POST split-supervoxel/1000 (runs inside block 0,0,0) after POST index/1000 with an extra entry for block (5,5,5)"
+		var runs []lmwire.Run
+		for y := int32(2); y < 6; y++ {
+			runs = append(runs, lmwire.Run{X: 3, Y: y, Z: 4, N: 9})
+		}
+		r, err := w.Post(base+"split-supervoxel/1000", lmwire.EncodeRLEs(runs))
+		if err != nil {
+			return last, &r, err
+		}
+		if r.Panicked() {
+			return last, &r, nil
+		}
+		// later mutations and reads of the instance must still be served
+		for _, q := range []struct {
+			m, p string
+			b    []byte
+		}{
+			{"POST", "merge", []byte("[2000, 1000]")},
+			{"GET", "label/3_3_4", nil},
+			{"GET", "sparsevol-size/2000", nil},
+		} {
+			last = q.m + " lm/" + q.p + " after the split-supervoxel on the inconsistent index"
+			rr, err := w.HTTP(q.m, base+q.p, q.b)
+			if err != nil || rr.Panicked() {
+				return last, &rr, err
+			}
+		}
+		return last, &r, nil
+	}})
 }
 
 func scenarioRun(c *drv.Ctx, bin string) error {
